@@ -39,6 +39,7 @@ impl Rep {
 pub fn run(obligation: &str) -> i32 {
     let mut rep = Rep::new();
     if obligation.starts_with("C02.") || obligation.starts_with("C05.") { c02_c05_assembly(&mut rep); return rep.finish("C02_C05_assembly"); }
+    if obligation.starts_with("C14.") { c14_numbering(&mut rep); return rep.finish("C14_numbering"); }
     if obligation.starts_with("C06.int_type_token") { c06_int_type_token(&mut rep); return rep.finish("C06.int_type_token"); }
     if obligation.starts_with("C06.") { c06_integer_constraints(&mut rep); return rep.finish("C06.integer_constraints"); }
     println!("REPLAY-NOTE no native replay registered for {obligation}");
@@ -234,6 +235,64 @@ fn c02_c05_assembly(rep: &mut Rep) {
                 rep.check("C05.enumerated_from.marker_iff_extensible", e.extensible.is_some() == marker, desc);
                 if marker { rep.check("C05.enumerated_from.index_is_root_len", e.extensible == Some(n_root), desc); }
             }
+        }
+    }
+}
+
+// ---------------------------------------------------------------------------------------------- C14
+/// independent reference for X.680 §20.3 / §20.6 (written from the standard's text, set-based)
+fn c14_reference(root: &[Option<i128>], adds: &[Option<i128>]) -> (Vec<i128>, Vec<i128>) {
+    use std::collections::BTreeSet;
+    let explicit: BTreeSet<i128> = root.iter().flatten().copied().collect();
+    let mut taken = explicit.clone();
+    let mut rn = vec![];
+    for item in root {
+        match item {
+            Some(v) => rn.push(*v),
+            None => { let mut c = 0; while taken.contains(&c) { c += 1; } taken.insert(c); rn.push(c); }
+        }
+    }
+    let root_set: BTreeSet<i128> = rn.iter().copied().collect();
+    let mut an: Vec<i128> = vec![];
+    for item in adds {
+        match item {
+            Some(v) => an.push(*v),
+            None => {
+                let mut c = 0;
+                while root_set.contains(&c) || an.iter().any(|p| *p >= c) { c += 1; }
+                an.push(c);
+            }
+        }
+    }
+    (rn, an)
+}
+
+fn c14_numbering(rep: &mut Rep) {
+    // the property's own exhaustive set: up to 5 root items and 3 additions, each identifier-only or numbered from {-1,0,1,2,5}
+    let alphabet: [Option<i128>; 6] = [None, Some(-1), Some(0), Some(1), Some(2), Some(5)];
+    fn lists(alphabet: &[Option<i128>], max: usize) -> Vec<Vec<Option<i128>>> {
+        let mut out = vec![vec![]];
+        let mut frontier: Vec<Vec<Option<i128>>> = vec![vec![]];
+        for _ in 0..max {
+            let mut next = vec![];
+            for f in &frontier { for a in alphabet { let mut g = f.clone(); g.push(*a); next.push(g); } }
+            out.extend(next.iter().cloned());
+            frontier = next;
+        }
+        out
+    }
+    let roots = lists(&alphabet, 5);
+    let adds = lists(&alphabet, 3);
+    for root in &roots {
+        for add in &adds {
+            // keep the product manageable: full additions only for roots up to 3 items, else additions up to 1 item
+            if root.len() > 3 && add.len() > 1 { continue; }
+            let (rn, an) = rasn_compiler::verif_hooks::hook_assign_enumeral_numbers(root, add);
+            let (wr, wa) = c14_reference(root, add);
+            let desc = || format!("root={root:?} additions={add:?} -> got root={rn:?} additions={an:?} want root={wr:?} additions={wa:?}");
+            rep.check("C14.assign.lengths_preserved", rn.len() == root.len() && an.len() == add.len(), desc);
+            rep.check("C14.assign.root_numbering_x680_20_3", rn == wr, desc);
+            rep.check("C14.assign.additions_numbering_x680_20_6", rn != wr || an == wa, desc);
         }
     }
 }
